@@ -7,6 +7,9 @@ PROPS = [json.loads(l)["id"] for l in open("/verif/properties.jsonl")]
 SESSION_NOTE = ("Trusted base: the transcription of MPD's idle/noidle/command-list rules in spec/World.tla; TLC; the deterministic tokio test runtime. "
                 "The exhaustive result is a fact about Loop.tla (small scope); the real code is judged only by the property monitors evaluated by TLC on recorded executions.")
 
+WIRE_NOTE = ("Trusted base: RefDecode / Encode in spec/Wire.tla as the reading of MPD's response grammar; TLC. The exhaustive all-segmentations result is a fact about Receive.tla; "
+             "the real code is judged by TLC on recorded executions (no oracle in the Rust harness).")
+
 CHECKS = {
  "C01": dict(level="model_checking", design_ref="DESIGN.md 6 (C01), 3.3",
    text="Loop.tla (client loop as coded || MPD server || pipe || callers || timer) is model-checked exhaustively in a small scope against the C01 monitors of World.tla (reply identity, per-caller order at the server, failed-list shape, cancel non-interference); environment schedules generated from the model by TLC plus seeded random ones are replayed into the real mpd_client::Client and every recorded trace is validated by TLC against the same monitors (SessionTrace.tla).",
@@ -20,6 +23,18 @@ CHECKS = {
  "C08": dict(level="model_checking", design_ref="DESIGN.md 6 (C08)",
    text="Loop_faults: one fault of each kind (peer close / cut at every half-line, persistent read error, persistent write error, garbage) injected at every state of the model; monitors: every request resolves (with its reply iff completely received), closed flag, event stream ends after <= 1 closing event, unclean end surfaced, transport released. Fault schedules from the model and random ones are replayed into the real client and validated by TLC.",
    technique="TLA+ model checking with fault enumeration (TLC) + TLC trace validation of real-client executions", note=SESSION_NOTE),
+ "C02": dict(level="model_checking", design_ref="DESIGN.md 6 (C02), 3.5",
+   text="Receive.tla (transcription of parser.rs' nom streaming combinators, ResponseBuilder and both receive loops with their buffer bookkeeping) is model-checked for EVERY segmentation of every stream of the configuration, both flavours, against the independent line-based reference RefDecode of Wire.tla; streams TLC derives from abstract responses plus truncated/mutated/large ones are fed in dictated read sizes to the real Connection and AsyncConnection and TLC compares the recorded outcomes with RefDecode of the recorded bytes and across segmentations/flavours.",
+   technique="TLA+ model checking (TLC) of Receive.tla over all segmentations + TLC trace validation of real receive() executions", note=WIRE_NOTE),
+ "C03": dict(level="model_checking", design_ref="DESIGN.md 6 (C03), 3.5",
+   text="The oracle is the ENCODER: TLC enumerates abstract responses (frames, field values such as 'OK', 'ACK ..', 'binary: 3', payloads with LF/'OK\\n'/NUL/0xFF, list and single form, sequences), encodes them with Wire.tla's Encode and checks that the real connections decode exactly those responses followed by a clean end, under segmentation; exhaustive over all segmentations on Receive.tla.",
+   technique="TLA+ model checking (TLC) of Receive.tla + TLC validation of real decodings against the spec's encoder", note=WIRE_NOTE),
+ "C09": dict(level="model_checking", design_ref="DESIGN.md 6 (C09), 7.1 F-C09-1",
+   text="Receive.tla makes the preconditions of the buffer operations explicit (a violated split_off precondition is the outcome PANIC); all single-edit mutations, truncations and numeric edge lines are model-checked for every segmentation (Receive_mut_sync.cfg = the code before fix F-C09-1 must fail). Against the real code: mutated streams, byte soup, edge lines and bad greetings; receive is called until the first terminal outcome AND once more; panics, hangs (read limit), fabricated data are violations.",
+   technique="TLA+ model checking (TLC) of Receive.tla + TLC trace validation of real receive()/connect() executions on malformed input", note=WIRE_NOTE),
+ "C10": dict(level="model_checking", design_ref="DESIGN.md 6 (C10)",
+   text="Every cut position of well-formed streams (TLC-encoded abstract responses) and of the greeting, under segmentation, both flavours: responses before the cut delivered, clean end iff the cut is a response boundary, unexpected EOF otherwise; exhaustive over all truncations x segmentations on Receive.tla (the two EOF predicates are different code).",
+   technique="TLA+ model checking (TLC) of Receive.tla + TLC trace validation of real receive()/connect() executions on truncated streams", note=WIRE_NOTE),
 }
 
 def main():
